@@ -85,6 +85,7 @@ class Kernel:
         self.splits = splits
         self.prune_timeout_ms = prune_timeout_ms
         self.guided_seeds = guided_seeds
+        self.guided_random = None
 
     def params_cpp(self):
         ps = []
